@@ -109,7 +109,7 @@ type Diameter struct {
 	Protocol string `yaml:"protocol" valid:"required"`
 	HostIPv4 string `yaml:"hostIPv4,omitempty" valid:"required,host"`
 	Port     int    `yaml:"port,omitempty" valid:"required,port"`
-	Tls      *Tls   `yaml:"tls,omitempty" valid:"optional"`
+	Tls      *Tls   `yaml:"tls,omitempty" valid:"required"`
 }
 
 type Cgf struct {
@@ -141,6 +141,9 @@ func (s *Sbi) validate() (bool, error) {
 		if result, err := tls.validate(); err != nil {
 			return result, err
 		}
+	} else if s.Scheme == "https" {
+		// the https listener reads the certificate and key paths unconditionally
+		return false, errors.New("Invalid sbi: scheme https needs a tls section (pem, key)")
 	}
 
 	result, err := govalidator.ValidateStruct(s)
